@@ -1,11 +1,133 @@
-(* C11 -- cached recurrences behave like uncached ones under any interleaving (statements only). *)
+(* C11 -- cached recurrences behave like uncached ones under any interleaving; no deadlock.
+   Statements only; proofs are in rcache/RCacheThm.v.
+
+   The transition system (rcache/RCacheModel.v) has one program counter per source line of
+   rrulebase._iter_cached / __iter__ / count / the query methods; `step seq true false st t` runs one line
+   of thread t (None = blocked in acquire() or finished); `exec` folds a schedule (ANY list of thread
+   ids) over it; `reach seq ops sched` = exec seq true false sched (init ops).  `seq` is the sequence the
+   uncached rule yields -- arbitrary; `ops` any list of operations (iterators, first-k, index, count,
+   contains, between, before, after), one thread each.  `true` = the code after fix bb46216. *)
 From Coq Require Import ZArith List Bool.
-From V Require Import rcache.RCacheModel rcache.RCacheSpec rcache.RCacheThm.
+From V Require Import rcache.PyList rcache.RCacheModel rcache.RCacheSpec rcache.RQueryModel
+  rcache.RQuerySpec rcache.RCacheThm.
 Import ListNotations.
 Open Scope Z_scope.
 
-Theorem C11_prefix_code_deadlocks_refuted :
-  let s := exec dl_seq false dl_sched (init [OList; OList]) in
-  all_done s = false /\ stuck dl_seq false s = true.
+(* the invariant (RCacheThm.Inv) holds in every state reachable under any schedule *)
+Theorem C11_invariant_reachable : forall seq ops sched, Inv seq (reach seq ops sched).
+Proof. exact inv_reachable. Qed.
+Print Assumptions C11_invariant_reachable.
+
+(* its shared-state part, spelled out: the cache is a prefix of seq; complete -> the cache is all of
+   seq and _len = |seq|; the lock is held by t iff t's pc is inside the critical section *)
+Theorem C11_cache_inv : forall seq ops sched,
+  let s := reach seq ops sched in
+  cache (sh s) = firstn (length (cache (sh s))) seq /\
+  (complete (sh s) = true -> cache (sh s) = seq /\ lenp (sh s) = Some (length seq)) /\
+  (forall t th, nth_error (thr s) t = Some th -> (in_crit (t_pc th) = true <-> lock (sh s) = Some t)).
+Proof. exact cache_inv. Qed.
+Print Assumptions C11_cache_inv.
+
+(* every thread has received a prefix of seq; a finished operation returned the uncached answer
+   (done_ok: spec_result, or list membership for `x in rule` on the complete cache) -- in particular
+   it never raised TypeError / IndexError unless the uncached rule raises IndexError *)
+Theorem C11_observes_uncached : forall seq ops sched t th,
+  nth_error (thr (reach seq ops sched)) t = Some th ->
+  is_prefix (t_out th) seq /\
+  (forall r, t_res th = Some r -> t_pc th = PDone -> done_ok seq (t_op th) r) /\
+  (t_pc th = PDone -> exists r, t_res th = Some r /\ done_ok seq (t_op th) r).
+Proof. exact observes_uncached. Qed.
+Print Assumptions C11_observes_uncached.
+
+(* iterators: no hypothesis on seq *)
+Theorem C11_iterator_yields_seq : forall seq ops sched t th,
+  nth_error (thr (reach seq ops sched)) t = Some th ->
+  is_prefix (t_out th) seq /\
+  (t_op th = OList -> t_pc th = PDone -> t_res th = Some (Ret seq)).
+Proof. exact iterator_yields_seq. Qed.
+Print Assumptions C11_iterator_yields_seq.
+
+(* every operation, for strictly increasing seq (what recurrences are) *)
+Theorem C11_results_match_uncached : forall seq ops sched t th,
+  incr seq ->
+  nth_error (thr (reach seq ops sched)) t = Some th -> t_pc th = PDone ->
+  t_res th = Some (spec_result (t_op th) seq).
+Proof. exact results_match_uncached. Qed.
+Print Assumptions C11_results_match_uncached.
+
+(* no deadlock: in every reachable state with an unfinished operation some thread can step *)
+Theorem C11_no_deadlock : forall seq ops sched,
+  all_done (reach seq ops sched) = false -> exists t, step seq true false (reach seq ops sched) t <> None.
+Proof. exact no_deadlock. Qed.
+Print Assumptions C11_no_deadlock.
+
+(* bounded lock hold: a lock holder is never blocked and each of its steps decreases a rank <= 31;
+   at rank 1 the step releases the lock *)
+Theorem C11_bounded_lock_hold : forall seq s t th,
+  in_crit (t_pc th) = true ->
+  (crit_rank (t_pc th) <= 31)%nat /\
+  exists s' th', step_thread seq true false s t th = Some (s', th') /\
+                 (in_crit (t_pc th') = true -> (crit_rank (t_pc th') < crit_rank (t_pc th))%nat) /\
+                 (crit_rank (t_pc th) = 1%nat -> lock s' = None /\ in_crit (t_pc th') = false).
+Proof. exact crit_progress. Qed.
+Print Assumptions C11_bounded_lock_hold.
+
+(* termination: every successful step strictly decreases the measure `total` (sum over threads of
+   64*(|seq|+1-i) + rank pc), so no run takes more than length ops * (64*(|seq|+1)+72) steps
+   (`taken` counts the schedule entries that moved a thread), and from every reachable state some
+   continuation of at most that many enabled steps completes ALL operations: every operation completes
+   under any scheduler that keeps running enabled threads *)
+Theorem C11_step_decreases : forall seq st t st',
+  Inv seq st -> step seq true false st t = Some st' -> (total seq st' < total seq st)%nat.
+Proof. exact step_decreases. Qed.
+Print Assumptions C11_step_decreases.
+
+Theorem C11_every_operation_completes : forall seq ops sched,
+  let bound := (length ops * ((length seq + 1) * 64 + 72))%nat in
+  (taken seq sched (init ops) <= bound)%nat /\
+  exists ext, (length ext <= bound)%nat /\
+              all_done (exec seq true false (sched ++ ext) (init ops)) = true.
+Proof. exact every_operation_completes. Qed.
+Print Assumptions C11_every_operation_completes.
+
+(* the fuelled drivers of single-threaded histories (RCacheModel.run_next / run_done, used by the
+   extracted oracle with this fuel) never run out of fuel and never deadlock from a quiescent state *)
+Theorem C11_history_drivers_total : forall seq st t th have,
+  Inv seq st -> quiet st -> nth_error (thr st) t = Some th ->
+  let fuel := (64 * (length seq + 1) + 80)%nat in
+  (exists st', Inv seq st' /\ quiet st' /\
+               ((exists v, run_next seq true false fuel st t have = NValue v st') \/
+                run_next seq true false fuel st t have = NStop st' \/
+                (exists e, run_next seq true false fuel st t have = NRaise e st'))) /\
+  (exists st' th', run_done seq true false fuel st t = Some (Some st') /\ Inv seq st' /\ quiet st' /\
+                   nth_error (thr st') t = Some th' /\ t_pc th' = PDone).
+Proof. exact history_drivers_total. Qed.
+Print Assumptions C11_history_drivers_total.
+
+(* the code before bb46216 (`false`) deadlocks: two iterators over a 10-element rule *)
+Theorem C11_prefix_code_no_deadlock_refuted :
+  let s := exec dl_seq false false dl_sched (init [OList; OList]) in
+  all_done s = false /\ stuck dl_seq false false s = true.
 Proof. exact prefix_code_deadlocks. Qed.
-Print Assumptions C11_prefix_code_deadlocks_refuted.
+Print Assumptions C11_prefix_code_no_deadlock_refuted.
+
+(* Finding F-C11-raise (outside the theorems above, which are about generators that end normally,
+   `raises = false`): with a generator that raises, three consecutive list(rule) observe
+   ValueError, TypeError, then a silently "complete" cache; the uncached rule raises ValueError each time *)
+Theorem C11_raising_generator_refuted :
+  map t_res (thr (exec [] true true rz_sched (init [OList; OList; OList]))) =
+    [Some (Raise EValueError); Some (Raise ETypeError); Some (Ret [])] /\
+  map t_res (thr (exec [1;2;3] true true rz_sched (init [OList; OList; OList]))) =
+    [Some (Raise EValueError); Some (Raise ETypeError); Some (Ret [1;2;3])] /\
+  spec_result_raising OList [] = Raise EValueError /\ spec_result_raising OList [1;2;3] = Raise EValueError.
+Proof. exact raising_generator_differs. Qed.
+Print Assumptions C11_raising_generator_refuted.
+
+(* non-vacuity: a concrete run of five concurrent operations finishes with the uncached answers *)
+Theorem C11_example :
+  let s := reach [10;20;30] [OList; OGet 1; OCount; OContains 20; OBetween 10 30 false]
+                 (flat_map (fun _ => [0;1;2;3;4]%nat) (seq 0 80)) in
+  all_done s = true /\
+  map t_res (thr s) = [Some (Ret [10;20;30]); Some (Ret [20]); Some (Ret [3]); Some (Ret [1]); Some (Ret [20])].
+Proof. exact reach_example. Qed.
+Print Assumptions C11_example.
